@@ -109,6 +109,10 @@ fn strum_err_fn(_item: &str) -> UnsupportedRelayProtocolVersion {
     UnsupportedRelayProtocolVersion::new()
 }
 
+#[cfg(kani)]
+#[path = "/verif/kani/iroh_relay/http.rs"]
+mod verif_kani;
+
 #[cfg(test)]
 mod tests {
     use std::str::FromStr;
